@@ -296,7 +296,7 @@ class ImporterHistory(RuleBasedStateMachine):
         got = outcome(imp, t)
         ref = outcome(kp.createImporter(h), t)
         if got != ref:
-            self.KV['fail']({'history': list(self.history)})
+            self.KV['fail']({'history': list(self.history)}, ('history-differs', f'step {len(self.history)}: importer for {h} with a past gives {got!r} for {t!r}, a new importer gives {ref!r}'))
             raise AssertionError('history-differs')
 
     def teardown(self):
